@@ -14,6 +14,12 @@ usage: seeded.py <agent-worktree> <k> <new-id> [--tier quick]
 import json, os, re, shutil, subprocess, sys, time
 
 VERIF = os.path.dirname(os.path.dirname(os.path.abspath(__file__)))
+# the checks run here are against broken copies: their evidence and replay files must not land in /verif
+SELFTEST_ROOT = "/var/tmp/vs-selftest-root"
+os.makedirs(SELFTEST_ROOT, exist_ok=True)
+if os.path.exists(os.path.join(VERIF, "known_findings.json")):
+    shutil.copy(os.path.join(VERIF, "known_findings.json"), SELFTEST_ROOT)
+os.environ["VERIF_ROOT_OVERRIDE"] = SELFTEST_ROOT
 GO = "/root/go/pkg/mod/golang.org/toolchain@v0.0.1-go1.25.0.linux-amd64/bin/go"
 ENV = dict(os.environ, GOFLAGS="-mod=mod", GOPROXY="off", GOTOOLCHAIN="local", GO=GO,
            PATH=os.path.dirname(GO) + ":" + os.environ["PATH"])
